@@ -460,6 +460,89 @@ def rewrite_ROOT(text, method, occurrence, fname, by_ref=True):
     return text[:toks[start].start] + f"{fname}({'&' if by_ref else ''}{recv.strip()})" + text[toks[i + 2].end:]
 
 
+
+def _step_parts(text):
+    """R5/R5b: split Executor::step into (closure body tokens info): returns (body_text) of the `inner` closure"""
+    toks_ = tokenize(text)
+    pat_ = [t.text for t in tokenize("let mut inner = ||")]
+    hit_ = [i for i in range(len(toks_) - len(pat_)) if [t.text for t in toks_[i:i + len(pat_)]] == pat_]
+    if len(hit_) != 1:
+        raise Undecided("R5: closure `let mut inner = ||` not found exactly once")
+    bo2_ = hit_[0] + len(pat_)
+    bc2_ = match_close(toks_, bo2_)
+    return text[toks_[bo2_].start:toks_[bc2_].end]
+
+
+def parse_match_arms(body):
+    """arms of the single top-level `match op {..}` in `body`: [(pattern_text, expr_text, is_block)], plus (prefix, suffix) texts"""
+    toks = tokenize(body)
+    mi = [i for i in range(len(toks) - 2) if toks[i].text == "match" and toks[i + 1].text == "op" and toks[i + 2].text == "{"]
+    if len(mi) != 1:
+        raise Undecided("R5b: `match op {` not found exactly once")
+    mo = mi[0] + 2
+    mc = match_close(toks, mo)
+    arms = []
+    i = mo + 1
+    while i < mc:
+        # pattern up to `=>` at depth 0
+        j = i
+        while toks[j].text != "=>":
+            if toks[j].text in OPEN:
+                j = match_close(toks, j)
+            j += 1
+        pat = body[toks[i].start:toks[j].start].strip()
+        k = j + 1
+        if toks[k].text == "{":
+            e = match_close(toks, k)
+            expr = body[toks[k].start:toks[e].end]
+            nxt = e + 1
+            if nxt < mc and toks[nxt].text == ",":
+                nxt += 1
+            arms.append((pat, expr, True))
+            i = nxt
+        else:
+            e = k
+            while e < mc and toks[e].text != ",":
+                if toks[e].text in OPEN:
+                    e = match_close(toks, e)
+                e += 1
+            expr = body[toks[k].start:toks[e - 1].end]
+            arms.append((pat, expr, False))
+            i = e + 1
+    return arms, body[:toks[mi[0]].start], body[toks[mc].end:]
+
+
+def enum_variant_types(enum_text):
+    """{variant: [field types]} of a tuple-variant enum"""
+    toks = tokenize(enum_text)
+    bo = _body_open_index(toks)
+    bc = match_close(toks, bo)
+    out = {}
+    i = bo + 1
+    while i < bc:
+        if toks[i].kind == "ident":
+            name = toks[i].text
+            if toks[i + 1].text == "(":
+                c = match_close(toks, i + 1)
+                inner = enum_text[toks[i + 1].end:toks[c].start]
+                out[name] = [x.strip() for x in inner.split(",") if x.strip()]
+                i = c + 1
+            else:
+                out[name] = []
+                i += 1
+        else:
+            i += 1
+    return out
+
+
+def arm_variant(pat):
+    m = re.match(r"OpCode::(\w+)\s*(\((.*)\))?$", pat.strip(), re.S)
+    if not m:
+        raise Undecided(f"R5b: unsupported arm pattern `{pat}`")
+    vars_ = [v.strip() for v in (m.group(3) or "").split(",") if v.strip()]
+    return m.group(1), vars_
+
+
 def apply_rewrites(text, rewrites):
     for rw in rewrites:
         if rw[0] == "R4":
@@ -468,6 +551,73 @@ def apply_rewrites(text, rewrites):
             text = rewrite_R3_for_each(text, rw[1] if len(rw) > 1 else 0)
         elif rw[0] == "R8":
             text = rewrite_R8_continue(text)
+        elif rw[0] in ("R5_OUTER", "R5_INNER"):
+            # R5: the zero-argument closure `let mut inner = || { BODY }; let res: Option<()> = inner();` of Executor::step is lifted
+            # to a method step_inner(&mut self) -> Option<()> { BODY }; it captures only `self` and is called exactly once
+            toks_ = tokenize(text)
+            pat_ = [t.text for t in tokenize("let mut inner = ||")]
+            hit_ = [i for i in range(len(toks_) - len(pat_)) if [t.text for t in toks_[i:i + len(pat_)]] == pat_]
+            if len(hit_) != 1:
+                raise Undecided("R5: closure `let mut inner = ||` not found exactly once")
+            bo2_ = hit_[0] + len(pat_)
+            if toks_[bo2_].text != "{":
+                raise Undecided("R5: closure body is not a block")
+            bc2_ = match_close(toks_, bo2_)
+            if toks_[bc2_ + 1].text != ";":
+                raise Undecided("R5: closure statement not terminated")
+            call_ = tokenize("let res: Option<()> = inner();")
+            nxt_ = [t.text for t in toks_[bc2_ + 2: bc2_ + 2 + len(call_)]]
+            if nxt_ != [t.text for t in call_]:
+                raise Undecided("R5: closure is not called exactly as `let res: Option<()> = inner();`")
+            body_ = text[toks_[bo2_].start:toks_[bc2_].end]
+            if rw[0] == "R5_OUTER":
+                text = text[:toks_[hit_[0]].start] + "let res: Option<()> = self.step_inner();" + text[toks_[bc2_ + 1 + len(call_)].end:]
+            else:
+                text = f"fn {rw[1]}(&mut self) -> Option<()> " + body_
+        elif rw[0] == "R16":  # `while let PAT = EXPR { BODY }` -> `loop { let __wl = EXPR; match __wl { PAT => { BODY } _ => break, } }` (its definition)
+            toks_ = tokenize(text)
+            hit_ = [i for i in range(len(toks_) - 1) if toks_[i].text == "while" and toks_[i + 1].text == "let"]
+            occ_ = rw[1] if len(rw) > 1 else 0
+            if occ_ >= len(hit_):
+                raise Undecided("R16: no `while let`")
+            i_ = hit_[occ_]
+            j_ = i_ + 2
+            while toks_[j_].text != "=":
+                if toks_[j_].text in OPEN:
+                    j_ = match_close(toks_, j_)
+                j_ += 1
+            lb_ = loop_body_open(toks_, j_)
+            lc_ = match_close(toks_, lb_)
+            pat_ = text[toks_[i_ + 2].start:toks_[j_].start].strip()
+            expr_ = text[toks_[j_ + 1].start:toks_[lb_].start].strip()
+            body_ = text[toks_[lb_].start:toks_[lc_].end]
+            text = text[:toks_[i_].start] + f"loop {{ let __wl = {expr_}; match __wl {{ {pat_} => {body_} _ => break, }} }}" + text[toks_[lc_].end:]
+        elif rw[0] in ("ARM", "DISPATCH"):
+            # R5b: the arms of `match op` inside Executor::step's closure are lifted to methods arm_<Variant>(&mut self, <pattern vars>);
+            # DISPATCH produces step_inner whose arms call them.  Purely syntactic; every arm is covered (census checks the list).
+            body_ = _step_parts(text)
+            arms_, pre_, post_ = parse_match_arms(body_)
+            vt_ = enum_variant_types(find_item("lib/melvm/src/opcode.rs", open(os.path.join(REPO, "lib/melvm/src/opcode.rs")).read(), "enum", "OpCode").text)
+            vt_ = {k: v for k, v in vt_.items()}
+            if rw[0] == "ARM":
+                hit_ = [(p_, e_, b_) for (p_, e_, b_) in arms_ if arm_variant(p_)[0] == rw[1]]
+                if len(hit_) != 1:
+                    raise Undecided(f"R5b: arm {rw[1]} not found exactly once")
+                p_, e_, b_ = hit_[0]
+                name_, vars_ = arm_variant(p_)
+                tys_ = vt_.get(name_)
+                if tys_ is None or len(tys_) != len(vars_):
+                    raise Undecided(f"R5b: variant {name_} arity mismatch")
+                params_ = "".join(f", {v}: {t}" for v, t in zip(vars_, tys_))
+                stmt_ = e_ if b_ else e_ + ";"
+                text = f"fn arm_{name_}(&mut self{params_}) -> Option<()> {{ {stmt_} Some(()) }}"
+            else:
+                out_ = pre_ + "match op {\n"
+                for p_, e_, b_ in arms_:
+                    name_, vars_ = arm_variant(p_)
+                    out_ += f"    {p_} => {{ self.arm_{name_}({', '.join(vars_)})?; }}\n"
+                out_ += "}" + post_
+                text = "fn step_inner(&mut self) -> Option<()> " + out_
         elif rw[0] == "MUTSELF":  # R13: `mut self` receiver rebound to a local: fn f(self, ..) { let mut this = self; .. this .. }
             toks_ = tokenize(text)
             bo_ = _body_open_index(toks_)
